@@ -16,6 +16,7 @@ import (
 	"go/token"
 	"os"
 	"path/filepath"
+	"sort"
 	"strings"
 )
 
@@ -283,12 +284,105 @@ func c18Body(fd *ast.FuncDecl) string {
 }
 
 // genC18 writes Gen/SessionBody.lean (own header: the shapes live in Model/SessionShape.lean).
-func genC18(o *out, root map[string]*ast.File) {
+func c18ContextHolders(pkgs map[string]map[string]*ast.File) []string {
+	var out []string
+	var rels []string
+	for rel := range pkgs {
+		rels = append(rels, rel)
+	}
+	sort.Strings(rels)
+	for _, rel := range rels {
+		var names []string
+		for n := range pkgs[rel] {
+			names = append(names, n)
+		}
+		sort.Strings(names)
+		for _, fn := range names {
+			ast.Inspect(pkgs[rel][fn], func(n ast.Node) bool {
+				ts, ok := n.(*ast.TypeSpec)
+				if !ok {
+					return true
+				}
+				st, ok := ts.Type.(*ast.StructType)
+				if !ok {
+					return true
+				}
+				for _, fl := range st.Fields.List {
+					if src(fl.Type) != "context.Context" {
+						continue
+					}
+					if len(fl.Names) == 0 {
+						out = append(out, fmt.Sprintf("  (%s, %s, %s)", lstr(fn), lstr(ts.Name.Name), lstr("<embedded>")))
+					}
+					for _, nm := range fl.Names {
+						out = append(out, fmt.Sprintf("  (%s, %s, %s)", lstr(fn), lstr(ts.Name.Name), lstr(nm.Name)))
+					}
+				}
+				return true
+			})
+		}
+	}
+	return out
+}
+
+func genC18(o *out, pkgs map[string]map[string]*ast.File, all []funcInfo) {
+	root := pkgs["."]
 	var b strings.Builder
 	b.WriteString("-- GENERATED by /verif/extract from /repo's working tree. Do not edit.\nimport GormModel.Model.SessionShape\nnamespace Gorm.Gen\nopen Gorm\n\n")
 	fmt.Fprintf(&b, "/-- gorm.go `(*DB).Session`: every simple statement of the body with its path condition -/\ndef sessionBody : List GStmt := %s\n\n", c18Body(findFunc(root, "DB.Session")))
 	fmt.Fprintf(&b, "/-- gorm.go `(*DB).getInstance`: every simple statement of the body with its path condition -/\ndef getInstanceBody : List GStmt := %s\n\n", c18Body(findFunc(root, "DB.getInstance")))
 	fmt.Fprintf(&b, "/-- fields of `type Session struct` with their types -/\ndef sessionFieldTypes : List (String × String) := %s\n", pairs(c18StructFieldTypes(root, "Session")))
+	// every assignment to a `Context` field/variable path and every `context.X(…)` call, repo-wide (non-test)
+	var writes, makes []string
+	for _, fi := range all {
+		fi := fi
+		var stack []ast.Node
+		ast.Inspect(fi.decl.Body, func(n ast.Node) bool {
+			if n == nil {
+				stack = stack[:len(stack)-1]
+				return true
+			}
+			switch x := n.(type) {
+			case *ast.AssignStmt:
+				for i, l := range x.Lhs {
+					p := c18SelPath(l)
+					if p[len(p)-1] == "Context" {
+						r := ""
+						if len(x.Rhs) == len(x.Lhs) {
+							r = src(x.Rhs[i])
+						} else if len(x.Rhs) > 0 {
+							r = src(x.Rhs[0])
+						}
+						writes = append(writes, fmt.Sprintf("  (%s, %s, %s, %s)", lstr(fi.file), lstr(fi.name), lstr(src(l)), lstr(r)))
+					}
+				}
+			case *ast.CallExpr:
+				if sel, ok := x.Fun.(*ast.SelectorExpr); ok {
+					if id, ok := sel.X.(*ast.Ident); ok && id.Name == "context" {
+						use := "other"
+						if len(stack) > 0 {
+							switch p := stack[len(stack)-1].(type) {
+							case *ast.CallExpr:
+								if ps, ok := p.Fun.(*ast.SelectorExpr); ok {
+									use = "arg:" + ps.Sel.Name
+								} else {
+									use = "arg:" + src(p.Fun)
+								}
+							case *ast.KeyValueExpr:
+								use = "field:" + src(p.Key)
+							}
+						}
+						makes = append(makes, fmt.Sprintf("  (%s, %s, %s, %s)", lstr(fi.file), lstr(fi.name), lstr(trunc120(src(x))), lstr(use)))
+					}
+				}
+			}
+			stack = append(stack, n)
+			return true
+		})
+	}
+	fmt.Fprintf(&b, "\n/-- every assignment whose target path ends in `Context` (file, function, target, value) -/\ndef contextWrites : List (String × String × String × String) := [\n%s\n]\n", strings.Join(writes, ",\n"))
+	fmt.Fprintf(&b, "\n/-- every call of a function of package `context` (file, function, call, how its result is used) -/\ndef contextMakes : List (String × String × String × String) := [\n%s\n]\n", strings.Join(makes, ",\n"))
+	fmt.Fprintf(&b, "\n/-- every struct type with a field of type `context.Context` (file, type, field) -/\ndef contextHolders : List (String × String × String) := [\n%s\n]\n", strings.Join(c18ContextHolders(pkgs), ",\n"))
 	b.WriteString("\nend Gorm.Gen\n")
 	o.writeRaw("SessionBody", b.String())
 }
